@@ -11,17 +11,18 @@ SeqsLE(S, k) == UNION {[1..m -> S] : m \in 0..k}
 OrderScripts == {<<W(0, 100000)>>, <<F("err")>>, <<F("noid")>>, <<F("empty")>>}
 
 (* renewal timeline: initial window, <= K failures, renewed window (then a long-lived certificate) *)
-TimeScripts(Ws, Fs, K) == {<<w1>> \o fs \o <<w2>> : w1 \in Ws, w2 \in Ws, fs \in SeqsLE(Fs, K)}
+TimeScripts(Ws, W2s, Fs, K) == {<<w1>> \o fs \o <<w2>> : w1 \in Ws, w2 \in W2s, fs \in SeqsLE(Fs, K)}
                           \cup {<<F(k)>> : k \in {"err", "noid", "empty"}}
-(* validity windows: 2 s, 4 s, 120 s, already past half-life (issued 400 s into an 800 s validity), not yet valid *)
-WinSmall == {W(0, 2), W(0, 4), W(0, 120), W(-400, 400), W(50, 250)}
+(* validity windows: 2 s, 4 s, 120 s, already past half-life (issued 200 s into a 400 s validity), not yet valid *)
+WinSmall == {W(0, 2), W(0, 4), W(0, 120), W(-200, 200), W(20, 100)}
 WinBig   == WinSmall \cup {W(0, 7200), W(-7200, 7200)}
 FailSmall == {F("err"), F("noid")}
 FailBig   == {F("err"), F("noid"), F("empty")}
-ScriptsSmall == TimeScripts(WinSmall, FailSmall, 2)
-ScriptsBig   == TimeScripts(WinBig, FailBig, 3)
-StepsSmall == {1, 7, 60}
-StepsBig   == {1, 10, 59, 3600}
+ScriptsSmall == TimeScripts(WinSmall, {W(0, 4), W(-200, 200)}, FailSmall, 2)
+ScriptsBig   == TimeScripts(WinBig, WinBig, FailBig, 3)
+StepsSmall == {{2}, {7}, {60}}
+StepsBig   == {{1}, {10}, {59}, {3600}, {7, 60}}
 (* for the defect variants: one script that exercises the variant *)
-ScriptsDefect == {<<W(0, 120), F("noid"), F("err"), W(-400, 400)>>}
+ScriptsDefect == {<<W(0, 120), F("noid"), F("err"), W(-200, 200)>>}
+NoSteps == {{}}
 =============================================================================
